@@ -50,7 +50,8 @@ def functions_encoded():
 
 def instances(tier):
     out = [{"name": "crosshair_read_routing", "func": "run_xh", "kwargs": {"func": "read_routing", "twin": "read_routing_reach"}, "timeout": 300},
-           {"name": "crosshair_arrange_traces", "func": "run_xh", "kwargs": {"func": "arrange", "twin": "arrange_reach"}, "timeout": 300}]
+           {"name": "crosshair_arrange_traces", "func": "run_xh", "kwargs": {"func": "arrange", "twin": "arrange_reach"}, "timeout": 300},
+           {"name": "crosshair_arrange_traces_mixed_prefixes", "func": "run_xh", "kwargs": {"func": "arrange_mixed", "twin": "arrange_mixed_reach"}, "timeout": 300}]
     for perm in itertools.permutations((0, 1, 2)):
         for rot in ("rot", "norot", "explicit"):
             if tier == "quick" and rot != "rot" and perm not in ((0, 1, 2), (0, 2, 1)):
